@@ -11,6 +11,7 @@ property for the *interpretation* of these bodies over an arbitrary scripted cal
 -/
 namespace GA.Props.BodyCollect
 open GA.Body GA.Own GA.Bridge.BodyCollect
+open GA.Bridge.Body (foldSpec)
 
 /-- the caller's iterator as the interpreter sees it: the script's answers, its `size_hint()` -/
 def scriptCtx (n : Nat) (hint : Nat × Option Nat) (sc : Script) : Ctx :=
@@ -120,6 +121,44 @@ theorem C04_body_generate (f : Nat → Option Id) (n : Nat) (hn : n < word) :
   obtain ⟨hp, hu⟩ := GA.Props.C04.generate_ledger f n
   exact ⟨by simpa using hp, hu⟩
 
+/-! ## C08 / C04 — `FunctionalSequence::fold` on an owned array, on the interpreted body -/
+
+def foldCtx (n : Nat) (f : Nat → Bool) : Ctx :=
+  { n := n, bad := none, fpan := fun k => !f k, cl := fun _ => none }
+
+def fst0 (xs : List Id) : St := ⟨⟨xs, 0, 0, 0, []⟩, ⟨[], 0, 0, 0, []⟩, false, 0, false, 0, false⟩
+
+/-- interpreting the regenerated `fold` body (with `ArrayConsumer::new` / `iter_position` inlined and
+    the regenerated `Drop for ArrayConsumer` run at scope end) = the model's `foldOp .owned` -/
+theorem ga_fold_run (f : Nat → Bool) (xs : List Id) (hw : xs.length < word) :
+    let r := runFn (foldCtx xs.length f) Gen.Body.consumerDrop.body Gen.Body.gaFold [] (fst0 xs)
+    r.1 = (GA.Ops.foldOp .owned f xs).1 ∧ (r.2.1 = R.ret .unit ↔ (GA.Ops.foldOp .owned f xs).2 = true) ∧ r.2.1 ≠ R.ub := by
+  have h := gaFold_body xs hw (foldCtx xs.length f) rfl 0
+  have h1 : (runFn (foldCtx xs.length f) Gen.Body.consumerDrop.body Gen.Body.gaFold [] (fst0 xs)).1
+      = (foldSpec (fun k => !f k) xs 0).1 := congrArg Prod.fst h
+  have h2 : (runFn (foldCtx xs.length f) Gen.Body.consumerDrop.body Gen.Body.gaFold [] (fst0 xs)).2.1
+      = (if (foldSpec (fun k => !f k) xs 0).2 = true then R.ret V.unit else R.panicked) := congrArg Prod.snd h
+  rw [foldOp_owned_eq]
+  refine ⟨h1, ?_, ?_⟩
+  · rw [h2]
+    cases (foldSpec (fun k => !f k) xs 0).2 <;> simp
+  · rw [h2]
+    cases (foldSpec (fun k => !f k) xs 0).2 <;> simp
+
+/-- **C04**: whichever call of the closure panics, every element is handed to the closure or
+    dropped exactly once; **C08**: without panics the closure sees `(0, x₀), (1, x₁), …` in order -/
+theorem C04_C08_body_ga_fold (f : Nat → Bool) (xs : List Id) (hw : xs.length < word) :
+    let r := runFn (foldCtx xs.length f) Gen.Body.consumerDrop.body Gen.Body.gaFold [] (fst0 xs)
+    (gives r.1 ++ drops r.1).Perm (xs ++ takes r.1) ∧ uninitDrops r.1 = 0 ∧
+    ((∀ k, f k = true) → GA.Func.args r.1 = (List.range xs.length).zip xs) := by
+  obtain ⟨h1, _, _⟩ := ga_fold_run f xs hw
+  obtain ⟨hp, hu⟩ := GA.Props.C04.fold_ledger .owned f xs
+  refine ⟨by rw [h1]; simpa [GA.Props.C04.ownedInputs] using hp, by rw [h1]; exact hu, fun hall => ?_⟩
+  have hf : f = fun _ => true := funext hall
+  subst hf
+  rw [h1]
+  exact (GA.Props.C08.fold_spec .owned xs).2
+
 -- non-vacuity: the interpreter runs the translated body
 example : resOf (runFn (scriptCtx 3 (0, none) ⟨[some 7, some 8, some 9, none], 0, none⟩) Gen.Body.intrusiveDrop.body
     Gen.Body.tryFromIter [] (st0 ⟨[some 7, some 8, some 9, none], 0, none⟩)).2.1 = some (.ok [7, 8, 9]) := by decide
@@ -137,3 +176,4 @@ end GA.Props.BodyCollect
 #print axioms GA.Bridge.BodyCollect.exec_failOnErr
 #print axioms GA.Props.BodyCollect.C08_body_generate
 #print axioms GA.Props.BodyCollect.C04_body_generate
+#print axioms GA.Props.BodyCollect.C04_C08_body_ga_fold
